@@ -83,7 +83,7 @@ pub fn run_case(base: &Base, c: &HandleCase) -> Option<(String, String)> {
     let mut data = base.data.clone();
     let mut pos: u64 = 0;
     let r = guarded(|| -> Result<(), (String, String)> {
-        let mut s = live.comp.open_stream(PATH).map_err(|e| ("machinery".to_string(), format!("open_stream: {}", e)))?;
+        let mut s = ops::NoDropOnPanic::new(live.comp.open_stream(PATH).map_err(|e| ("machinery".to_string(), format!("open_stream: {}", e)))?);
         for (i, call) in c.calls.iter().enumerate() {
             let bad = |m: String| ("array".to_string(), format!("call {} {:?}: {}", i, call, m));
             match *call {
@@ -210,7 +210,7 @@ pub fn run_case(base: &Base, c: &HandleCase) -> Option<(String, String)> {
             return Err(("array".into(), format!("final stream_position {} expected {}", p, pos)));
         }
         s.flush().map_err(|e| ("array".to_string(), format!("final flush failed: {}", e)))?;
-        drop(s);
+        drop(s.0.take());
         for (path, want) in [(PATH, &data[..]), ("/g", &[0xEE; 100][..]), ("/i", &[0xDD; 5000][..])] {
             let mut f = live.comp.open_stream(path).map_err(|e| ("array".to_string(), format!("fresh handle on {}: {}", path, e)))?;
             let mut got = Vec::new();
